@@ -31,8 +31,8 @@ def plan(seed, overrides=None):
     for i in range(nd):
         recipes[f"desc{i}"] = G.gen_net_description(rr, degenerate=rr.random() < cfg["degenerate_rate"])
         recipes[f"cdesc{i}"] = G.gen_cir_description(rr, degenerate=rr.random() < cfg["degenerate_rate"])
-        recipes[f"doc{i}"] = {"kind": "value", "v": enc(G.gen_document(rr, python_form=True))}
-        recipes[f"ndoc{i}"] = {"kind": "value", "v": enc(G.gen_document(rr, python_form=False))}
+        recipes[f"doc{i}"] = G.gen_document_recipe(rr, python_form=True)
+        recipes[f"ndoc{i}"] = G.gen_document_recipe(rr, python_form=False)
         z = G.cx(rr) * rr.choice([1, 10, 0.01])
         n = G.notation(rr, z)
         if "phase" in n and rr.random() < 0.5:
